@@ -222,7 +222,7 @@ def run_coq_cases(prop: str, header: str, terms: list, shard=400, timeout=900):
         p = os.path.join(d, name + ".v")
         with open(p, "w") as f:
             f.write(header + "\n")
-            f.write("Require Import Coq.Lists.List Coq.ZArith.ZArith Coq.Strings.String.\nImport ListNotations.\n")
+            f.write("Require Import Coq.Lists.List Coq.ZArith.ZArith Coq.Strings.String Coq.Bool.Bool.\nImport ListNotations.\nOpen Scope bool_scope.\n")
             f.write("Definition verif_cases : list (nat * bool) :=\n  [")
             f.write(";\n   ".join(f"({cid}%nat, {t})" for cid, t in chunk))
             f.write("].\n")
